@@ -1092,7 +1092,7 @@ def run(ctx: vlib.Ctx):
         "C07_positional_prefix", "C07_noninit_unread", "C07_sticky_irrelevant", "C07_factory_fresh",
         "C07_binding_refuted", "C07_noninit_refuted_plain_base"], kernels=["K4"])
     if br.ok and not ctx.quick():
-        rc, out, _ = vlib.run(["timeout", "900", "coqchk", "-silent", "-o"] + vlib.COQ_FLAGS[:6] + ["VerifProps.C07_bind"],
+        rc, out, _ = vlib.run(["timeout", "900", "coqchk", "-silent", "-o"] + vlib.COQ_FLAGS[:9] + ["VerifProps.C07_bind"],
                               cwd=vlib.COQ, timeout=930)
         tail = out[out.find("CONTEXT SUMMARY"):] if "CONTEXT SUMMARY" in out else out[-800:]
         axioms = tail[tail.find("* Axioms:"):].split("*")[1].strip() if "* Axioms:" in tail else "?"
